@@ -8,7 +8,7 @@
    loop as soon as the awaited counter is zero, a non-zero counter is always accounted for by a registered
    (held or in-flight) reader, new readers register in the other counter, and quiescent states are finished
    (no deadlock or livelock between readers and writers). *)
-From GV Require LRProofs CowProofs.
+From GV Require LRProofs CowProofs RcuReadProofs.
 
 (* ---------- lr_guarded ---------- *)
 (* wait-free read acquisition: any reader pc is enabled in ANY global state under ANY choice *)
@@ -72,3 +72,23 @@ Theorem cow_commit_completes : ltac:(let T := type of CowProofs.cow_commit_compl
 Proof. exact CowProofs.cow_commit_completes. Qed.
 Theorem cow_bounded_work : ltac:(let T := type of CowProofs.cow_bounded_work in exact T).
 Proof. exact CowProofs.cow_bounded_work. Qed.
+
+(* ---------- rcu_guarded / rcu_list ---------- *)
+(* every step of a read operation - registration (lock_read's lazy rcu_read_lock), begin, ++, *, and the whole
+   release / reclaim path - is enabled in ANY state under ANY choice *)
+Theorem rcu_read_nonblocking : ltac:(let T := type of RcuReadProofs.read_nonblocking in exact T).
+Proof. exact RcuReadProofs.read_nonblocking. Qed.
+Theorem rcu_idle_enabled : ltac:(let T := type of RcuReadProofs.idle_enabled in exact T).
+Proof. exact RcuReadProofs.idle_enabled. Qed.
+(* the only blocking points of the whole component are the two acquisitions of the write mutex (push / erase) *)
+Theorem rcu_blocked_only_at_write_mutex : ltac:(let T := type of RcuReadProofs.blocked_only_at_write_mutex in exact T).
+Proof. exact RcuReadProofs.blocked_only_at_write_mutex. Qed.
+(* no reader step touches the write mutex *)
+Theorem rcu_readers_take_no_mutex : ltac:(let T := type of RcuReadProofs.readers_take_no_mutex in exact T).
+Proof. exact RcuReadProofs.readers_take_no_mutex. Qed.
+(* run alone, registration completes in five steps (allocate, construct, load head, store next, one CAS);
+   the CAS retries only when the log head changed, and the head changes only by a successful CAS of another thread *)
+Theorem rcu_register_solo : ltac:(let T := type of RcuReadProofs.register_solo in exact T).
+Proof. exact RcuReadProofs.register_solo. Qed.
+Theorem rcu_zhead_changes_by_cas : ltac:(let T := type of RcuReadProofs.zhead_changes_by_cas in exact T).
+Proof. exact RcuReadProofs.zhead_changes_by_cas. Qed.
